@@ -187,13 +187,6 @@ func (o *OracleC11) lock(w *ledger.World, bc *ledger.BlockCtx, v *txnView) {
 		what := o.foreign(v, v.Req.ProviderType, v.Req.ProviderID)
 		o.viol(w, "lock", "lock/"+v.Fn+"/accepted-for-"+what,
 			fmt.Sprintf("%s accepted a stake of %d for (%s, %s), which is not a provider registered with this contract", v.Fn, t.Value, v.Req.ProviderType, v.Req.ProviderID))
-		// still say where the tokens' pool ended up
-		for _, d := range v.Pools {
-			if d.P == nil || d.P.Kind != v.Req.ProviderType {
-				o.viol(w, "lock", "lock/"+v.Fn+"/pool-written-under-key-of-another-kind/"+keyClass(d.Key),
-					fmt.Sprintf("record %q changed", d.Key))
-			}
-		}
 		return
 	}
 	d := v.pool(p.PoolKey())
